@@ -38,21 +38,15 @@ Theorem C35_report_roundtrip : forall m s r, rs_ok m = true ->
 Proof. intros m s r H He Hr. eapply on_stream; eauto using rs_no_errline, rs_roundtrip. Qed.
 Print Assumptions C35_report_roundtrip.
 
-(* ShallowUpdate — FULL STATEMENT: forall m with valid ids (SHA-1 or SHA-256),
-   decode (encode m) = m.  It is false of the code (known finding): *)
-Theorem C35_shupd_sha256_refuted : exists m,
-  forallb hash_ok (su_shallows m ++ su_unshallows m) = true /\
-  su_decode (mksrc (map item_of (su_encode m)) None) = inr EOther.
-Proof. exists (mkshupd [mkhash (repeat 171%N 32) true] []). vm_compute. split; reflexivity. Qed.
-Print Assumptions C35_shupd_sha256_refuted.
-
-(* ... PARTIAL: it holds when all ids are SHA-1 (guard sha1_ok) *)
-Theorem C35_shupd_roundtrip_partial : forall m s r,
-  forallb sha1_ok (su_shallows m) = true -> forallb sha1_ok (su_unshallows m) = true ->
+(* ShallowUpdate (after "fix: packp: accept SHA-256 ids in a shallow-update"; the
+   unchanged tree rejected its own encoding of SHA-256 ids): every list of
+   valid ids, SHA-1 or SHA-256 *)
+Theorem C35_shupd_roundtrip : forall m s r,
+  forallb hash_ok (su_shallows m) = true -> forallb hash_ok (su_unshallows m) = true ->
   enc_pkts (su_encode m) = Some s -> concat r = s ->
   su_decode (src_of (scan_all r)) = inl m.
 Proof. intros m s r H1 H2 He Hr. eapply on_stream; eauto using su_no_errline, su_roundtrip. Qed.
-Print Assumptions C35_shupd_roundtrip_partial.
+Print Assumptions C35_shupd_roundtrip.
 
 (* UploadHaves (SHA-1 and SHA-256): the haves come back sorted and without
    duplicates, Done is preserved *)
@@ -62,8 +56,9 @@ Theorem C35_uphav_roundtrip : forall m s r, forallb hash_ok (uh_haves m) = true 
 Proof. intros m s r H He Hr. eapply on_stream; eauto using uh_no_errline, uh_roundtrip. Qed.
 Print Assumptions C35_uphav_roundtrip.
 
-(* PushOptions: every list of options that Encode accepts (graphic ASCII,
-   at most MaxPayloadSize) and none of which starts with "ERR " *)
+(* PushOptions: every list of options that Encode accepts (every rune graphic in
+   the sense of unicode.IsGraphic — any UTF-8, invalid bytes count as U+FFFD — and
+   at most MaxPayloadSize bytes) and none of which starts with "ERR " *)
 Theorem C35_pushopts_roundtrip : forall opts ps s r,
   po_encode opts = Some ps -> forallb (fun o => negb (has_prefix errPrefix o)) opts = true ->
   enc_pkts ps = Some s -> concat r = s ->
@@ -71,7 +66,7 @@ Theorem C35_pushopts_roundtrip : forall opts ps s r,
 Proof.
   intros opts ps s r Hp Hn He Hr. eapply on_stream; eauto using po_roundtrip.
   unfold po_encode in Hp.
-  destruct (forallb (fun o => forallb graphic_ascii o && (zlen o <=? Gen.C34.pktline_MaxPayloadSize)%Z) opts); [|discriminate].
+  destruct (forallb (fun o => graphic_str o && (zlen o <=? Gen.C34.pktline_MaxPayloadSize)%Z) opts); [|discriminate].
   injection Hp as <-.
   rewrite forallb_app. cbn [forallb]. rewrite andb_true_r.
   rewrite forallb_forall in *. intros p Hp. apply in_map_iff in Hp. destruct Hp as (o & <- & Ho). now apply Hn.
@@ -119,21 +114,11 @@ Proof.
 Qed.
 Print Assumptions C35_updreq_roundtrip.
 
-(* UploadRequest — FULL STATEMENT: forall well-formed requests, decode (encode m) = m.
-   False of the code (known finding): a request with a filter cannot be decoded *)
-Theorem C35_ulreq_filter_refuted : exists m ps,
-  ul_encode m = ULok ps /\ forallb no_errline ps = true /\
-  ul_decode (mksrc (map item_of ps) None) = inr EUnexpected.
-Proof.
-  exists (mkulreq [] [mkhash (repeat 17%N 20 ++ repeat 0%N 12) false] [] 0 None [] [98; 108; 111; 98; 58; 110; 111; 110; 101]%N).
-  eexists. split; [reflexivity|]. vm_compute. split; reflexivity.
-Qed.
-Print Assumptions C35_ulreq_filter_refuted.
-
-(* ... PARTIAL: without a filter (guard ul_ok: Filter empty) every request
-   round-trips: capabilities, wants and shallows (sorted, de-duplicated), and
-   every depth form (deepen n / deepen-since t / deepen-not refs) *)
-Theorem C35_ulreq_roundtrip_partial : forall m, ul_ok m = true ->
+(* UploadRequest (after "fix: packp: decode the filter line of an upload-request";
+   the unchanged tree could not decode a request with Filter set): capabilities,
+   wants and shallows (sorted, de-duplicated), every depth form (deepen n /
+   deepen-since t / deepen-not refs) and the filter round-trip *)
+Theorem C35_ulreq_roundtrip : forall m, ul_ok m = true ->
   exists ps, ul_encode m = ULok ps /\
     forall s r, enc_pkts ps = Some s -> concat r = s ->
       ul_decode (src_of (scan_all r)) = inl (ul_canon m).
@@ -141,7 +126,7 @@ Proof.
   intros m H. destruct (ul_roundtrip m H) as (ps & He & Hn & Hd). exists ps. split; [assumption|].
   intros s r Hs Hr. now rewrite (src_enc ps s r Hs Hn Hr).
 Qed.
-Print Assumptions C35_ulreq_roundtrip_partial.
+Print Assumptions C35_ulreq_roundtrip.
 
 (* ---------- non-vacuity ---------- *)
 From Coq Require Import String.
@@ -150,7 +135,7 @@ Definition h2 : hash := mkhash (repeat 34%N 20 ++ repeat 0%N 12) false.
 Definition h3 : hash := mkhash (repeat 171%N 32) true.
 
 Example C35_ex_guards :
-  hash_ok h1 = true /\ hash_ok h3 = true /\ sha1_ok h1 = true /\ sha1_ok h3 = false /\
+  hash_ok h1 = true /\ hash_ok h3 = true /\
   caps_ok [(B "multi_ack", []); (B "symref", [B "HEAD:refs/heads/main"]); (B "x", [[]; B "a=b"])] = true /\
   sr_ok [(h1, 1%N); (h2, 0%N)] = true /\ rs_ok (mkreport (B "ok") [(B "refs/heads/m", B "ok"); (B "refs/x", B "non fast forward")]) = true.
 Proof. vm_compute. repeat split. Qed.
@@ -168,7 +153,8 @@ Proof. vm_compute. repeat split. Qed.
 Example C35_ex_requests :
   ur_ok (mkupdreq [(B "report-status", [])] [(B "refs/heads/main", zero_hash, h1); (B "refs/tags/v1", h1, h2)] [h2]) = true /\
   ul_ok (mkulreq [(B "ofs-delta", [])] [h2; h1; h2] [h1] 0 (Some 1700000000%Z) [B "refs/heads/old"] []) = true /\
-  ul_ok (mkulreq [] [h1] [] 3 None [] []) = true /\
+  ul_ok (mkulreq [] [h1] [] 3 None [] (B "blob:none")) = true /\
+  ul_ok (mkulreq [] [h3] [h3] 0 None [B "refs/heads/x"] (B "tree:0")) = true /\
   ul_wants (ul_canon (mkulreq [] [h2; h1; h2] [] 0 None [] [])) = [h1; h2].
 Proof. vm_compute. repeat split. Qed.
 
